@@ -1,11 +1,12 @@
 (* Props/C05.v — property C05: scope never escalates across minting, refresh and chained refresh; the scope
    stated in the token response, carried by the token and reported by introspection is the same set.
    Statements only; proofs in Proofs/C05*_proofs.v.  Model/Session.v is tied to the real provider by
-   harness/drv_C05.py on every run.  (Token exchange, client-credentials and password grants are decided on the
-   real code by the driver's oracle; they are not part of the Gallina model — see DESIGN.md.) *)
+   harness/drv_C05.py on every run.  (The scope decisions of token exchange and client credentials are modelled in Model/ScopeFlows.v; their session
+   bookkeeping and the password grant are decided by the driver's oracle on the real code — see DESIGN.md.) *)
 From Coq Require Import String ZArith List.
 From Verif Require Import Lib.Base Lib.PyStr Model.Session Model.SessionCheck Proofs.Session_proofs
   Proofs.C05a_proofs Proofs.C05v_proofs Proofs.C05_proofs.
+From Verif Require Model.ScopeFlows Proofs.ScopeFlows_proofs.
 Import ListNotations.
 Open Scope string_scope.
 
@@ -54,6 +55,23 @@ Theorem C05_view_introspection : forall c s cl id sc cl' k,
     sc = match t_scope t with [] => match t_based t with Some _ => fscope s (t_grant t) g (t_based t) | None => g_scope g end | x => x end.
 Proof. exact view_introspection. Qed.
 Print Assumptions C05_view_introspection.
+
+(* Token exchange: whatever is granted lay in the subject token's scope, is allowed for the requesting client and
+   was asked for; a refresh token needs offline_access in the subject token.  Client credentials: the client's
+   configured scopes.  (Decision functions of Model/ScopeFlows.v, tied to the real token endpoint by drv_C05.) *)
+Theorem C05_exchange_never_widens : forall subj req allowed wr sc x,
+  ScopeFlows.exchange_scope subj req allowed wr = ScopeFlows.XOk sc -> In x sc ->
+  In x subj /\ In x allowed /\ (forall r, req = Some r -> In x r).
+Proof. exact ScopeFlows_proofs.exchange_never_widens. Qed.
+Print Assumptions C05_exchange_never_widens.
+Theorem C05_exchange_refresh_needs_offline : forall subj req allowed sc,
+  ScopeFlows.exchange_scope subj req allowed true = ScopeFlows.XOk sc -> In ScopeFlows.offline subj /\ In ScopeFlows.offline sc.
+Proof. exact ScopeFlows_proofs.exchange_refresh_needs_offline. Qed.
+Print Assumptions C05_exchange_refresh_needs_offline.
+Theorem C05_client_credentials_within_configured : forall allowed x,
+  In x (ScopeFlows.client_credentials_scope allowed) -> exists a, allowed = Some a /\ In x a.
+Proof. exact ScopeFlows_proofs.client_credentials_within_configured. Qed.
+Print Assumptions C05_client_credentials_within_configured.
 
 (* non-vacuity: client_1 may use openid/profile/email/offline_access; it asks for address and a custom scope too.
    The code exchange and a narrowing refresh succeed; a widening refresh is refused. *)
